@@ -1877,6 +1877,19 @@ fn declare_import(
         sig.push_str(" -> ");
         sig.push_str(wasm_type(*result));
     }
+    // Verification hook (off by default): declare the import as an ordinary C
+    // symbol on every target so a native harness can link a mock host.
+    #[cfg(bytecodealliance_wit_bindgen_verif)]
+    if verif_native_imports() {
+        return format!(
+            "
+            unsafe extern \"C\" {{
+                #[link_name = \"verif_import|{wasm_import_module}|{wasm_import_name}\"]
+                fn {rust_name}{sig};
+            }}
+        "
+        );
+    }
     format!(
         "
             #[cfg(target_arch = \"wasm32\")]
@@ -2085,4 +2098,42 @@ fn classify_constructor_return_type(
     }
 
     classify(resolve, resource_id, result).expect("invalid constructor")
+}
+
+/// Verification hook (off by default): whether imports are declared as plain C
+/// symbols named `verif_import|<module>|<name>` instead of wasm imports. On
+/// unless `VERIF_WASM_IMPORTS` is set, so the same hooked build can also
+/// produce the unmodified output.
+#[cfg(bytecodealliance_wit_bindgen_verif)]
+pub(crate) fn verif_native_imports() -> bool {
+    std::env::var_os("VERIF_WASM_IMPORTS").is_none()
+}
+
+/// Verification hook (off by default): rewrites the import declarations of a
+/// stream/future payload vtable the same way as `declare_import`.
+#[cfg(bytecodealliance_wit_bindgen_verif)]
+pub(crate) fn verif_rewrite_payload_vtable(code: String, module: &str) -> String {
+    if !verif_native_imports() {
+        return code;
+    }
+    let mut out = String::new();
+    let mut lines = code.lines();
+    while let Some(line) = lines.next() {
+        let t = line.trim();
+        if t == "#[cfg(not(target_arch = \"wasm32\"))]" {
+            // drop the attribute and the `unreachable!()` shim that follows
+            lines.next();
+            continue;
+        }
+        if t == "#[cfg(target_arch = \"wasm32\")]" || t.starts_with("#[link(wasm_import_module = ") {
+            continue;
+        }
+        if let Some(rest) = t.strip_prefix("#[link_name = \"") {
+            out.push_str(&format!("#[link_name = \"verif_import|{module}|{rest}\n"));
+            continue;
+        }
+        out.push_str(line);
+        out.push('\n');
+    }
+    out
 }
